@@ -75,11 +75,18 @@ def check(run, ctx):
     (run.ok(T1, "returns issues", "single return of the collected issues") if len(rets) == 1 and isinstance(rets[0].value, ast.Name) and rets[0] is ev.node.body[-1] else run.finding(T1, "evaluate_metrics", "returns", "evaluate_metrics has an early/other return", ev.loc))
 
     T2 = run.rule("T2", "SRPConfig.from_dict reads max_methods and max_loc in the language-override branch and in the default branch", floor=2)
-    fd = repo.func(f"{PKG}.config.SRPConfig.from_dict")
-    top = next((n for n in fd.node.body if isinstance(n, ast.If) and "language" in ast.unparse(n.test)), None)
-    cpar = fd.node.args.args[1].arg
+    fd0 = repo.func(f"{PKG}.config.SRPConfig.from_dict")
+    # the function that resolves the two levels: from_dict itself or a private helper of the module it hands (config, language) to
+    fd, cpar, lpar = fd0, fd0.node.args.args[1].arg, "language"
+    for cand in [fd0] + [h for h in inline.callees(repo, fd0) if h.module is fd0.module]:
+        ps_ = {a.arg for a in cand.node.args.args} - {"self", "cls"}
+        hit_ = next((n for n in ast.walk(cand.node) if isinstance(n, ast.Subscript) and isinstance(n.value, ast.Name) and n.value.id in ps_ and isinstance(n.slice, ast.Name) and n.slice.id in ps_), None)
+        if hit_ is not None:
+            fd, cpar, lpar = cand, hit_.value.id, hit_.slice.id
+            break
+    top = next((n for n in fd.node.body if isinstance(n, ast.If) and any(isinstance(x, ast.Name) and x.id == lpar for x in ast.walk(n.test))), None)
     lang_names = {t.id for n in ast.walk(fd.node) if isinstance(n, ast.Assign) for t in n.targets if isinstance(t, ast.Name)
-                  and any(isinstance(x, ast.Name) and x.id == "language" for x in ast.walk(n.value)) and any(isinstance(x, ast.Name) and x.id == cpar for x in ast.walk(n.value))}
+                  and any(isinstance(x, ast.Name) and x.id == lpar for x in ast.walk(n.value)) and any(isinstance(x, ast.Name) and x.id == cpar for x in ast.walk(n.value))}
     from . import shared as _sh
     mut = _sh.param_mutations(fd, cpar)
     if mut:
@@ -103,7 +110,7 @@ def check(run, ctx):
             run.finding(T2, "SRPConfig.from_dict", f"branch-asymmetry:{key}", f"{key} is not read at both the language level and the section level: per-language overrides would apply to one threshold only", fd.loc)
     if top is not None and not mut:
         test = ast.unparse(top.test)
-        (run.ok(T2, "override condition", test) if test == "language and language in config" else run.finding(T2, "SRPConfig.from_dict", f"override-cond:{test}", "language overrides are not selected by `language in config`", fd.loc))
+        (run.ok(T2, "override condition", test) if test == f"{lpar} and {lpar} in {cpar}" else run.finding(T2, "SRPConfig.from_dict", f"override-cond:{test}", "language overrides are not selected by `language in config`", fd.loc))
 
     T3 = run.rule("T3", "one violation per metrics record: _create_violation_if_needed builds at most one violation from all issues; the builder joins issues once", floor=2)
     cv = repo.func(f"{PKG}.linter.SRPRule._create_violation_if_needed")
